@@ -305,11 +305,11 @@ int main(int argc, char **argv) {
     printf("MAPDESC audit_map key=%zu value=%zu cap=%zu type=%zu\n", sizeof(*audit_map.key), sizeof(*audit_map.value), sizeof(*audit_map.max_entries) / sizeof(int), sizeof(*audit_map.type) / sizeof(int));
     printf("MAPDESC local_map key=%zu value=%zu cap=%zu type=%zu\n", sizeof(*local_map.key), sizeof(*local_map.value), sizeof(*local_map.max_entries) / sizeof(int), sizeof(*local_map.type) / sizeof(int));
 
-    struct vt_task ids[6] = {{agent_pid, agent_pid, 0, 0}, {100, 100, 0, 0}, {200, 200, 0, 1000}, {300, 300, 1000, 0}, {400, 400, 1000, 1000}, {400, 401, 1000, 1000} /* second thread of process 400 */};
+    struct vt_task ids[7] = {{agent_pid, agent_pid, 0, 0}, {100, 100, 0, 0}, {200, 200, 0, 1000}, {300, 300, 1000, 0}, {400, 400, 1000, 1000}, {400, 401, 1000, 1000} /* second thread of process 400 */, {agent_pid, agent_pid + 7, 0, 0} /* a worker thread of the agent */};
     struct conn dests[10]; int nd = 0;
     struct { const char *ip; uint16_t port; } dd[5] = {{"168.63.129.16", 80}, {"168.63.129.16", 32526}, {"169.254.169.254", 80}, {"168.63.129.16", 81}, {"10.0.0.1", 80}};
     for (int i = 0; i < 5; i++) for (int p = 0; p < 2; p++) { dests[nd].ip = inet_addr(dd[i].ip); dests[nd].port = dd[i].port; dests[nd].proto = p == 0 ? 6 : 17; nd++; }
-    int nids = 6;
+    int nids = 7;
     unsigned policies[4] = {7, 1, 5, 0}; int npol = thorough ? 4 : 3;
 
     /* configurations: 2 threads x 1 connect each (all), plus (thorough) 2 threads x 2 connects on a reduced alphabet and 3 threads x 1 connect */
